@@ -90,6 +90,7 @@ impl MT941 {
         let field_64 = parser.parse_optional_field::<Field64>("64")?;
 
         // Parse optional forward available balance (can be repetitive)
+        parser = parser.with_duplicates(true);
         let mut field_65_vec = Vec::new();
         while parser.detect_field("65") {
             field_65_vec.push(parser.parse_field::<Field65>("65")?);
@@ -99,6 +100,7 @@ impl MT941 {
         } else {
             Some(field_65_vec)
         };
+        parser = parser.with_duplicates(false);
 
         // Parse optional information field
         let field_86 = parser.parse_optional_field::<Field86>("86")?;
